@@ -30,8 +30,9 @@ func init() {
 		Level: "exploration",
 		Rule: "seeded structure-aware mutation, three corpora interleaved by case index: (1) static: valid model -> 0-8 semantic corruptions (hostile cells, dangling/blank/wrong-kind references, duplicate ids, parent cycles, blank required cells, row shuffles/duplications/deletions) -> header renaming/duplication/removal, member removal/duplication/emptying -> byte flips, truncation and splices of members and of the zip, random bytes as zip; both InheritWheelchairBoarding values; (2) realtime: valid message -> field-level hostility (ids shorter than 6, nil stop ids, empty descriptors, malformed dates/times, sort_order without colon, elevator-like ids, multi-payload and empty entities, missing required fields) -> wire-level flips/truncation/splices/length corruption, random bytes; every input under all 30 extension configurations; (3) journal: single feeds, repeated feeds and shuffled triples of successfully parsed results through BuildJournal with three windows, then ExportToCsv. After every successful parse all accessors run (Root, Hash into sha256, nil-safe getters on nil and non-nil receivers). " +
 			"distinct_nontrivial counts distinct (corpus, mutation-kind set, outcome class) signatures; a case that uses > 25 CPU-seconds is re-run alone and must finish within 60 CPU-seconds",
-		Cases: c05Counts,
-		Run:   runC05,
+		Cases:          c05Counts,
+		Run:            runC05,
+		HangCPUSeconds: 25,
 		Replicas: func(tier string) int {
 			if tier == "thorough" {
 				return 2
@@ -99,6 +100,14 @@ func c05StaticInput(r *core.Rand) ([]byte, []string) {
 		return b, []string{"random-bytes-as-zip"}
 	}
 	m := sgen.Gen(r, sgen.SmallSize)
+	if r.Chance(1, 12) {
+		// long parent_station rings and chains at size thresholds (Root() is called on every stop afterwards)
+		L := core.Pick(r, core.Thresholds(2100)[3:])
+		m = sgen.Gen(r, sgen.Size{Agencies: 1, Routes: 1, Stops: L + 2, Transfers: 1, Calendars: 1, CalDates: 1, Shapes: 0, ShapePtsPer: 1, Trips: 1, Freqs: 0, StopTimesPer: 2, Exact: true})
+		a := sgen.Tables(m)
+		sgen.ParentRing(a, L, r.Bool(), r)
+		return sgen.Encode(a, &sgen.Presentation{Plain: true}), []string{"long-parent-ring"}
+	}
 	a := sgen.Tables(m)
 	if r.Chance(3, 4) {
 		done := sgen.Corrupt(a, r, 1+r.Intn(8))
